@@ -295,7 +295,7 @@ pub fn check(t: &Trace<'_>, out: &mut CaseOut) -> bool {
     if !hostile && !exceeded {
         for c in &w.conns {
             let Some((off, why)) = &c.out.error else { continue };
-            let abandoned = t.log.ops.iter().any(|o| o.conn == Some(c.idx) && matches!(o.outcome, Outcome::Cancelled | Outcome::Watchdog) && o.out_after > o.out_before && o.out_before <= *off);
+            let abandoned = t.log.ops.iter().any(|o| o.conn == Some(c.idx) && left_bytes_behind(t.log, o) && o.out_before <= *off);
             if let Some(b0) = c.out.bytes.get(*off) {
                 if matches!(b0 >> 4, 4 | 5 | 7) && !abandoned {
                     out.violations.push(viol("C04", format!("C04/ack-malformed/{}", match b0 >> 4 { 4 => "PUBACK", 5 => "PUBREC", _ => "PUBCOMP" }), format!("conn {}: the acknowledgement written at stream offset {} is not a legal packet: {}", c.idx, off, why)));
